@@ -697,6 +697,28 @@ impl<'w> Judge<'w> {
                 let site = format!("{}/{}/{}{}", leg, level_key(&case.level), decode_path(self.w, &case.level, &chain), marker);
                 v.push(viol(case, "input_retained", site, "the input buffer is still shared after the error was dropped".into()));
             }
+            // Two failed decodes whose results are alive at the same time (an error kept for logging while
+            // the next message is refused), then both dropped: every eighth failing case, three rounds.
+            if case.idx % 8 == 0 && !(deltas[1] > 0 && deltas[2] > 0) {
+                let mut rounds = [0isize; 3];
+                for d in rounds.iter_mut() {
+                    let before = alloc::live();
+                    crate::eval::hold_errors(true);
+                    {
+                        let o1 = self.c19_leg(case, caps, tag);
+                        let o2 = self.c19_leg(case, caps, tag);
+                        drop(o1);
+                        drop(o2);
+                    }
+                    crate::eval::hold_errors(false);
+                    *d = alloc::live() - before;
+                }
+                self.stats.bump("c19.overlap_probes");
+                if rounds[1] > 0 && rounds[2] > 0 {
+                    let site = format!("{}/{}/{}", leg, level_key(&case.level), decode_path(self.w, &case.level, &chain));
+                    v.push(viol(case, "leak_overlapping", site, format!("{} live bytes remain each time two results of this failed decode were alive together and then dropped (rounds: {:?}); one at a time nothing remains", rounds[2], rounds)));
+                }
+            }
             if case.prior.is_none() {
                 self.prev_failing.insert(key, case.bytes.clone());
             }
